@@ -87,6 +87,9 @@ pub struct ExecSpec {
     pub custom_checks_toml: Option<String>,
     pub input_stats: Option<String>,
     pub input_stats_ext: String,
+    /// stored-byte fault: the byte at this offset (modulo the length) of the input statistics file becomes 0xFF
+    #[serde(default)]
+    pub input_stats_bad_byte_at: Option<usize>,
     pub stats_ext: String,
     pub policy: PolicySpec,
     pub sched_seed: u64,
@@ -122,6 +125,7 @@ impl ExecSpec {
             custom_checks_toml: None,
             input_stats: None,
             input_stats_ext: "json".into(),
+            input_stats_bad_byte_at: None,
             stats_ext: "json".into(),
             policy: PolicySpec::Canonical,
             sched_seed: 0,
@@ -447,7 +451,12 @@ pub fn exec(spec: &ExecSpec, wd: &WorkDir) -> ExecResult {
         std::fs::write(&p.checks, t).expect("write checks");
     }
     if let Some(t) = &spec.input_stats {
-        std::fs::write(&p.instats, t).expect("write instats");
+        let mut bytes = t.clone().into_bytes();
+        if let (Some(k), false) = (spec.input_stats_bad_byte_at, bytes.is_empty()) {
+            let n = bytes.len();
+            bytes[k % n] = 0xFF;
+        }
+        std::fs::write(&p.instats, bytes).expect("write instats");
     }
     let argv = subst(&spec.argv, &p);
 
